@@ -235,6 +235,24 @@ def c10_d(ctx: Ctx):
                 hit = folded
             if hit:
                 out.append(ctx.viol(R, f, e.node, f"{e.prim} writes {txt} in place: a {hit} file must only be replaced atomically (temporary + os.replace)"))
+    # copies routed through helpers (proxy.copy, self._copy2, a copy callable): destination argument names a document / cache file
+    for f in ctx.prog.funcs.values():
+        if f.module.is_dep or f.module.name == "signac.__main__":
+            continue
+        for c in body_nodes(f):
+            if not isinstance(c, ast.Call) or len(c.args) < 2:
+                continue
+            nm = c.func.attr if isinstance(c.func, ast.Attribute) else (c.func.id if isinstance(c.func, ast.Name) else "")
+            if nm not in ("copy", "copy2", "copyfile", "_copy", "_copy2", "_copy_p", "copytree", "move", "replace", "rename"):
+                continue
+            if nm in ("replace", "rename"):
+                continue  # renames are atomic
+            n_sites += 1
+            dst = common.inline_at(ctx, f, c.args[1], c)
+            txt = canon(dst)
+            if ("FN_DOCUMENT" in txt or "FN_CACHE" in txt) and not (isinstance(dst, ast.BinOp) and isinstance(dst.op, ast.Add) and isinstance(dst.right, ast.Constant) and dst.right.value):
+                out.append(ctx.viol(R, f, c, f"{canon(c.func)}(..., {txt[:50]}) copies onto a document / cache file in place: the destination is truncated and rewritten, so a reader or a crash "
+                                    "during the copy observes a torn or empty document"))
     out.append(ctx.ok(R, None, None, f"{n_sites} non-atomic write sites in signac examined; none targets a document or cache file name directly",
                       construct="who-may-write") if not out else ctx.info(R, None, None, f"{n_sites} write sites examined", construct="who-may-write"))
     return out
